@@ -1520,6 +1520,10 @@ pub async fn run_step(world: &mut World, scn: &mut Scn, step: &Value, out: &mut 
         "compute" => {
             world.peers[&s(step, "p")].recompute().await;
         }
+        "idle" => {
+            // nothing happens: asynchronous announcements of the previous operations get a later observation
+            tokio::time::sleep(std::time::Duration::from_millis(60)).await;
+        }
         "pull" => {
             let (p, q) = (s(step, "p"), s(step, "q"));
             match scn.names.rooms.get(&s(step, "room")).cloned() {
